@@ -5,6 +5,7 @@ import (
 	"encoding/hex"
 	"fmt"
 	"math/rand"
+	"path"
 	"regexp"
 	"sort"
 	"strconv"
@@ -312,6 +313,27 @@ func annotate(T *Tables, ev M) {
 			}
 			if string(b) == ".goit" || strings.HasPrefix(string(b), ".goit/") {
 				dom = false // a path inside the metadata directory is a hostile argument (C17, C18), not a C04/C09 input
+			}
+		}
+		// another spelling of clean paths (./f, d/./g, d//g, d/../f): what the arguments name after lexical cleaning
+		if !dom && len(ps) > 0 && (ev["ev"] == "restore") {
+			var cps []any
+			for _, p := range ps {
+				a := string(Unesc(p.(string)))
+				if a == "" || strings.HasPrefix(a, "-") || strings.HasPrefix(a, "/") || strings.HasSuffix(a, "/") || strings.Contains(a, "@ROOT@") || strings.Contains(a, "\\") || strings.Contains(a, "..") {
+					cps = nil
+					break
+				}
+				c := path.Clean(a)
+				if c == "." || c == ".." || strings.HasPrefix(c, "../") || c == ".goit" || strings.HasPrefix(c, ".goit/") || !cleanPathArg([]byte(c)) {
+					cps = nil
+					break
+				}
+				T.PathName([]byte(c))
+				cps = append(cps, EscS(c))
+			}
+			if len(cps) == len(ps) {
+				ev["cpaths"] = cps
 			}
 		}
 	case "branch", "branchr", "switchc", "switch", "branchd":
